@@ -2,6 +2,26 @@
 HOOK_COMMITS = ["645c65a", "e34ba59", "f51c5d9", "f6ed18e", "079d75a", "f4d99a1"]
 NOT_APPLICABLE = {}
 LEVELS = {
+    "C15": {
+        "text": "Proof: C15_exact (in every reachable state of the syncer model, position on the canonical chain => rows are exactly "
+                "the chain's admissible events from the first synced block to the position), C15_atomic, and the two domain lemmas, by an "
+                "invariant over sync steps incl. reorg resets clamped to the sync start and calls cut short by failures. Tied to the "
+                "three real syncers by step-by-step differential runs over block trees, head sequences and injected RPC/DB faults; the "
+                "statement is also evaluated directly after every step. One open known finding (reorg missed when the head skips "
+                "position+1), one defect repaired (reset below the sync start).",
+        "design_ref": "DESIGN.md §4 C15",
+        "note": "Trusted: Lean kernel; correspondence harness incl. syncrig/fakechain/pgfake/kdb; key uniqueness per chain; hashes identify ancestry.",
+        "technique": "Lean 4 invariant proof over sync-step histories + step-by-step differential runs of the real syncers over an in-process chain and PostgreSQL fake with fault injection",
+    },
+    "C16": {
+        "text": "Proof: C16_batching - any partition of the chain into limited ranges records the same registrations and fired rows as "
+                "block-by-block processing, for all states and chains; C16_once_and_in_time. Tied to the real multi event syncer and "
+                "processors by differential runs (fired rows vs block-by-block outcome after every step, vs a second keyper with other "
+                "range limits, vs the model). The defect that made firing depend on the range size was repaired (fix: commit).",
+        "design_ref": "DESIGN.md §4 C16",
+        "note": "Trusted: Lean kernel; correspondence harness incl. syncrig; matching reduced to topic equality in the model (C17 covers matching).",
+        "technique": "Lean 4 theorem (closed-form outcome, induction over range partitions) + differential runs of the real multi event syncer under different batchings",
+    },
     "C03": {
         "text": "Proof: C03_only_correct (whatever is delivered in whatever order, with duplicates, every stored key is f(0)•H), "
                 "C03_complete (threshold reached at a share message => all keys of the release stored from then on), "
